@@ -44,8 +44,9 @@ def built_extension():
         subprocess.run(["gcc", "-shared", "-fPIC", "-O1", "-fno-strict-aliasing", "-I" + inc, "_quoting_c.c", "-o", out],
                        cwd=tmp, check=True, capture_output=True, timeout=900)
         os.makedirs(cdir, exist_ok=True)
-        shutil.copy(out, so + ".tmp")
-        os.replace(so + ".tmp", so)
+        tmpname = f"{so}.{os.getpid()}.tmp"          # several checks may build at the same time
+        shutil.copy(out, tmpname)
+        os.replace(tmpname, so)
         return so
     except (subprocess.SubprocessError, OSError):
         return None
